@@ -157,7 +157,14 @@ pub struct WHistory {
     pub ops: Vec<WOp>,
     pub sink: SinkScript,
     pub content_seed: u64,
+    /// The writer is dropped while the thread unwinds from an unrelated panic (only with sinks
+    /// that never panic themselves).
+    #[serde(default)]
+    pub unwind_drop: bool,
 }
+
+/// Payload of the unrelated panic used for `unwind_drop`.
+struct UnrelatedPanic;
 
 #[derive(Default, Debug, Clone)]
 pub struct WStats {
@@ -172,6 +179,9 @@ pub struct WStats {
     pub sink_panics: u32,
     pub ops_after_panic: u32,
     pub absurd_ptr: u32,
+    pub unwind_drops: u32,
+    pub huge_slices: u32,
+    pub short_write_results: u32,
 }
 
 #[derive(Clone, Copy, Debug)]
@@ -286,10 +296,19 @@ pub fn run_whistory(h: &WHistory, which: WOracles, prop: &str) -> Result<WStats,
                 match op {
                     WOp::Write(l) | WOp::WriteAll(l) | WOp::WriteAllDefer(l) => {
                         let n = resolve(l, mirror_buffered);
-                        let bytes = content(h.content_seed, w_stream.len(), n);
+                        if n >= 1 << 20 {
+                            st.huge_slices += 1;
+                        }
+                        let mut bytes = content(h.content_seed, w_stream.len(), n);
                         match op {
                             WOp::Write(_) => match w.write(&bytes) {
                                 Ok(k) if k == n => {}
+                                // `Write::write` may take a prefix (never nothing of a non-empty
+                                // slice, never more than offered): only that prefix was written
+                                Ok(k) if k > 0 && k < n => {
+                                    bytes.truncate(k);
+                                    st.short_write_results += 1;
+                                }
                                 r => {
                                     return Err(Failure::new(
                                         format!("{prop}:write-result"),
@@ -546,7 +565,24 @@ pub fn run_whistory(h: &WHistory, which: WOracles, prop: &str) -> Result<WStats,
         // drop
         let calls_before = log.borrow().calls;
         let failures_before = log.borrow().failures;
-        let dropped = catch_unwind(AssertUnwindSafe(move || drop(w)));
+        let unwind = h.unwind_drop && !h.sink.steps.iter().any(|s| matches!(s, SinkStep::Panic));
+        let dropped = catch_unwind(AssertUnwindSafe(move || {
+            if unwind {
+                let _w = w;
+                // resume_unwind does not run the panic hook; thread::panicking() is true while
+                // `_w` is dropped
+                std::panic::resume_unwind(Box::new(UnrelatedPanic));
+            } else {
+                drop(w)
+            }
+        }));
+        let dropped = match dropped {
+            Err(p) if p.is::<UnrelatedPanic>() => {
+                st.unwind_drops += 1;
+                Ok(())
+            }
+            other => other,
+        };
         if let Err(p) = dropped {
             let msg = crate::engine::panic_message(&p);
             if !msg.contains("sink panicked on purpose") {
@@ -611,6 +647,9 @@ pub fn classify(h: &WHistory, st: &WStats, obs: &mut Obs) {
     obs.class_if(st.ptr_used > 0, "buf-write-ptr-used");
     obs.class_if(st.sink_panics > 0, "sink-panicked");
     obs.class_if(st.absurd_ptr > 0, "absurd-ptr-request");
+    obs.class_if(st.unwind_drops > 0, "dropped-while-unwinding");
+    obs.class_if(st.huge_slices > 0, "slice>=1MiB");
+    obs.class_if(st.short_write_results > 0, "write-took-a-prefix");
     let short = h.sink.tail_accept < 100_000
         || h.sink.steps.iter().any(|s| matches!(s, SinkStep::Accept(n) if *n < 100_000));
     obs.class_if(short, "short-writes");
@@ -631,6 +670,11 @@ fn len_strategy() -> impl Strategy<Value = Len> {
             (5000u32..=40000)
         ]
         .prop_map(Len::Abs),
+        // one slice of megabytes (1 in ~350 lengths; each costs ~10 ms)
+        1 => prop_oneof![
+            20 => (-3i8..=3).prop_map(Len::ToCapacity),
+            1 => prop_oneof![Just(1u32 << 20), Just((1 << 20) + 1), Just(3 << 20), (1u32 << 20)..=(7 << 19)].prop_map(Len::Abs),
+        ],
     ]
 }
 
@@ -677,8 +721,17 @@ pub fn sink_strategy(hostile: bool) -> impl Strategy<Value = SinkScript> {
         1 => Just(5000u32),
     ];
     let step = prop_oneof![
-        8 => prop_oneof![Just(u32::MAX), Just(1u32), Just(7u32), Just(1000u32), Just(5000u32), 1u32..=20000]
-            .prop_map(SinkStep::Accept),
+        8 => prop_oneof![
+            4 => Just(u32::MAX),
+            4 => Just(1u32),
+            4 => Just(7u32),
+            4 => Just(1000u32),
+            4 => Just(5000u32),
+            4 => 1u32..=20000,
+            1 => Just(1u32 << 20),
+            1 => Just(3u32 << 19)
+        ]
+        .prop_map(SinkStep::Accept),
         2 => Just(SinkStep::Intr),
     ];
     let failing = prop_oneof![
@@ -713,10 +766,12 @@ pub fn whistory_strategy(max_ops: usize, hostile: bool) -> impl Strategy<Value =
         proptest::collection::vec(wop_strategy(hostile), 0..max_ops),
         sink_strategy(hostile),
         any::<u64>(),
+        proptest::bool::weighted(0.15),
     )
-        .prop_map(|(ops, sink, content_seed)| WHistory {
+        .prop_map(|(ops, sink, content_seed, unwind_drop)| WHistory {
             ops,
             sink,
             content_seed,
+            unwind_drop,
         })
 }
